@@ -14,6 +14,8 @@ func init() {
 	vHarnesses["H_C13_handlers_raw"] = H_C13_handlers_raw
 	vHarnesses["H_C13_stalls"] = H_C13_stalls
 	vHarnesses["H_C13_charset"] = H_C13_charset
+	vHarnesses["H_C13_stop"] = H_C13_stop
+	vHarnesses["H_C13_prolog"] = H_C13_prolog
 }
 
 func vNondetSched(data []byte) *vSchedReader {
@@ -475,4 +477,80 @@ func H_C13_charset() {
 	vAssert(e1 == nil || e1 == NoRoot, "charset: the byte form decodes a document that declares another encoding when a CharsetReader is configured")
 	vAssert(e2 == e1 && vDeepEq(m1, m2), "charset: the reader form returns the same Map (and the same no-root indication) as the byte form")
 	vCover("charset")
+}
+
+// vChunkReader delivers its data in chunks of n bytes
+type vChunkReader struct {
+	b    []byte
+	i, n int
+}
+
+func (r *vChunkReader) Read(p []byte) (int, error) {
+	if r.i >= len(r.b) {
+		return 0, io.EOF
+	}
+	n := r.n
+	if n > len(p) {
+		n = len(p)
+	}
+	if n > len(r.b)-r.i {
+		n = len(r.b) - r.i
+	}
+	copy(p, r.b[r.i:r.i+n])
+	r.i += n
+	return n, nil
+}
+
+// a bulk handler that stops leaves the reader positioned at the next document, whatever the
+// size of the chunks the reader hands out
+func H_C13_stop() {
+	vResetDecOpts()
+	chunk := []int{1, 7, 64}[vChoose(3)]
+	c := vNondetString(1, 1, "yz")
+	xml := vChoose(2) == 1
+	raw := vChoose(2) == 1
+	calls := 0
+	var err error
+	var next map[string]interface{}
+	var nerr error
+	if xml {
+		rd := &vChunkReader{b: []byte("<a>1</a><b>" + c + "</b><c>3</c>"), n: chunk}
+		if raw {
+			err = HandleXmlReaderRaw(rd, func(Map, []byte) bool { calls++; return false }, func(error, []byte) bool { return false })
+		} else {
+			err = HandleXmlReader(rd, func(Map) bool { calls++; return false }, func(error) bool { return false })
+		}
+		var m Map
+		m, nerr = NewMapXmlReader(rd)
+		next = m
+	} else {
+		rd := &vChunkReader{b: []byte("{\"a\":1}{\"b\":\"" + c + "\"}{\"c\":3}"), n: chunk}
+		if raw {
+			err = HandleJsonReaderRaw(rd, func(Map, []byte) bool { calls++; return false }, func(error, []byte) bool { return false })
+		} else {
+			err = HandleJsonReader(rd, func(Map) bool { calls++; return false }, func(error) bool { return false })
+		}
+		var m Map
+		m, nerr = NewMapJsonReader(rd)
+		next = m
+	}
+	vAssert(err == nil && calls == 1, "stop: the handler is invoked once and processing stops when it returns false")
+	vAssert(nerr == nil && len(next) == 1 && next["b"] == c, "stop: the reader is left at the next document (nothing was read ahead)")
+	vCover("stop")
+}
+
+// items before the root (XML declaration, comment): the raw sequence reader returns what the
+// plain sequence reader and the byte form return, Map and no-root indication alike
+func H_C13_prolog() {
+	vResetDecOpts()
+	pre := []string{"<?xml version=\"1.0\"?>", "<!--c-->", "<!DOCTYPE a>"}[vChoose(3)]
+	doc := []byte(pre + "<a>" + vNondetString(1, 1, "xy") + "</a>")
+	m0, e0 := NewMapXmlSeq(doc)
+	m1, e1 := NewMapXmlSeqReader(vNondetSched(doc))
+	m2, raw, e2 := NewMapXmlSeqReaderRaw(vNondetSched(doc))
+	vAssert(e0 == NoRoot && len(m0) == 1, "prolog: the byte form hands out the item before the root with the no-root indication")
+	vAssert(e1 == e0 && vDeepEq(map[string]interface{}(m1), map[string]interface{}(m0)), "prolog: the reader form returns the same")
+	vAssert(e2 == e0 && vDeepEq(map[string]interface{}(m2), map[string]interface{}(m0)), "prolog: the raw reader form returns the same Map with the error")
+	vAssert(string(raw) == pre, "prolog: and the bytes of that item")
+	vCover("prolog")
 }
